@@ -222,7 +222,7 @@ def run(ctx):
     h = codec.H()
     rng = random.Random(ctx.seed + 5)
     thorough = ctx.tier == 'thorough' or ctx.escalate
-    n = 8000 if thorough else 1500
+    n = 50000 if thorough else 1500
     ctx.coverage['rule'] = ('documents written by an independent writer: every value kind x an independently chosen legal spelling (numbers: fixed / repr / '
                             'exponent forms / raw JSON numbers, with and without unit; INF/-INF/NaN; raw booleans; both Remove spellings; times h:mm, '
                             'h:mm:ss, fractions of 1-6 digits; date-times with Z/z or offset, with or without zone name, around DST transitions; strings with and '
@@ -280,7 +280,7 @@ def run(ctx):
                 corr = True
     # dense sweep of fractional seconds in times and date-times: every digit count, values at which binary floating
     # point would round differently from the decimal digits
-    nfrac = 6000 if thorough else 900
+    nfrac = 40000 if thorough else 900
     fr = []
     for _ in range(nfrac):
         nd = rng.choice([1, 2, 3, 4, 5, 6, 6, 6, 6])
